@@ -60,7 +60,7 @@ def generate(rng, tier, prop):
     docs = []
     for _ in range(ndocs):
         kn = docgen.draw_knobs(rng, tier, "utf-8")
-        kn.update({"nblocks": rng.choice([1, 2, 3, 4, 6]), "collide": rng.random() < 0.4, "names": rng.random() < 0.7,
+        kn.update({"nblocks": rng.choice([1, 2, 3, 4, 6]) if rng.random() > (0.02 if tier == "quick" else 0.08) else rng.choice([30, 80, 200]), "collide": rng.random() < 0.4, "names": rng.random() < 0.7,
                    "maxfields": rng.choice([2, 5, 8])})
         docs.append({"text": docgen.make_doc(rng, kn)["text"]})
     cfg = {"docs": docs, "formats": [draw_format(rng) for _ in range(2)] + [dict(draw_format(rng), value_column="auto")]}
